@@ -5,6 +5,25 @@ import json, subprocess, sys, tempfile, os
 pid, path = sys.argv[1], sys.argv[2]
 r = json.load(open(path))
 print(f"obligation: {r['obligation']}\nclause:     {r['clause']}\nposition:   {r['position']}\nrecorded:   {r['verdict']} ({r['solver']})")
+fi = r.get("failing_input")
+if fi:
+    # a concrete failing input was recorded: run the harness again on /repo's current tree (in-package test via -overlay)
+    import re
+    print(f"failing input: {fi['input']}\nviolated:      {fi['clause']}")
+    harness = json.load(open(os.path.join(os.path.dirname(os.path.dirname(os.path.abspath(__file__))), "replay", "harness.json")))
+    h = harness.get(r["function"])
+    if h:
+        ov = tempfile.NamedTemporaryFile("w", suffix=".json", delete=False)
+        json.dump({"Replace": {f"/repo/{h['pkg']}/zz_replay_verif_test.go": f"/verif/replay/{h['file']}"}}, ov); ov.close()
+        env = dict(os.environ, PATH="/opt/veriftools/go1.26.8/bin:" + os.environ["PATH"], GOFLAGS="-mod=mod", GOPROXY="off", GOSUMDB="off", GOTOOLCHAIN="local")
+        out = subprocess.run(["go", "test", "-overlay", ov.name, "-vet=off", "-count=1", "-timeout", "120s", "-run", h["run"], f"./{h['pkg']}/"], cwd="/repo", env=env, capture_output=True, text=True).stdout
+        os.unlink(ov.name)
+        fails = [l for l in out.splitlines() if l.startswith("REPLAY-FAIL ")]
+        if fails:
+            print("real code, current tree:", fails[0])
+            print(f"VIOLATION property={pid} replay={path} obligation={r['obligation']} failing-input reproduced")
+            sys.exit(1)
+        print("real code, current tree: the harness finds no failing input any more")
 smt = r.get("smt")
 if not smt:
     print("no SMT script recorded"); sys.exit(2)
